@@ -172,6 +172,26 @@ def from_bare(k):
     return [roundtrip(h, h.to_proto(ns["top"]), "bare")]
 
 
+def from_history(k):
+    """a history of imports in one process: two packages declare the same external module name (same domain) differently - port order, widths,
+    spice type, parameters; each round trip must give back ITS package whatever was imported before"""
+    from ..hd import h
+    import vlsirtools
+    sts = list(vlsirtools.SpiceType)
+    decls = [([("d", 1), ("g", 1), ("s", 1), ("b", 1)], sts[0]), ([("g", 1), ("d", 1), ("s", 1), ("b", 1)], sts[min(1, len(sts) - 1)]),
+             ([("d", 2), ("g", 1), ("s", 1), ("b", 1)], sts[0]), ([("d", 1), ("g", 1), ("s", 1)], sts[min(2, len(sts) - 1)])]
+    order = [decls[(k + j) % len(decls)] for j in range(len(decls))]
+    out = []
+    for j, (ports, st) in enumerate(order):
+        em = h.ExternalModule(name="nfet", port_list=[h.Port(name=n, width=w) for n, w in ports], desc="x", domain="somepdk", spicetype=st, paramtype=dict)
+        m = h.Module(name=f"Hist{k}_{j}")
+        m.s = h.Signal()
+        m.w2 = h.Signal(width=2)
+        m.add(em({"w": 1 + j})(**{n: (m.s if w == 1 else m.w2) for n, w in ports}), name="x")
+        out.append(roundtrip(h, h.to_proto(m), "history"))
+    return out
+
+
 def from_suite(args):
     """a package exported while the repository's own test-suite ran (harness/suite.py)"""
     src, raw = args
@@ -200,6 +220,8 @@ def run(tier, seed, replay_file=None):
     for out in pool_map(from_pairs, list(range(8))):
         evs += out
     for out in pool_map(from_bare, list(range(2))):
+        evs += out
+    for out in pool_map(from_history, list(range(4))):
         evs += out
     from .. import suite
     sjobs = []
@@ -240,7 +262,7 @@ def run(tier, seed, replay_file=None):
             o.violations.append(Violation(clause=clause.split(":")[0], case={"source": e["src"], "P": e["P"]}, features=["src_" + src, clause.split(":")[0]] + (["source:" + e["src"]] if src == "suite" else []),
                                           detail={"clause": clause, "exc": e["exc"], "P2": e["P2"]} if len(o.violations) < 12 else clause))
     o.distinct_nontrivial = len(seen)
-    o.required_cover = ["src_pairs", "src_bare", "src_params", "src_example", "src_U_sig", "conn_slice", "conn_cat", "conn_sig", "param_prefixed", "param_literal", "param_int64", "param_double"]
+    o.required_cover = ["src_history", "src_pairs", "src_bare", "src_params", "src_example", "src_U_sig", "conn_slice", "conn_cat", "conn_sig", "param_prefixed", "param_literal", "param_int64", "param_double"]
     for i in rnd.sample(range(len(evs)), 2):
         o.samples.append({"source": evs[i]["src"], "modules": [m["name"] for m in evs[i]["P"]["mods"]], "verdict": verdicts[i]})
     return o
